@@ -50,6 +50,13 @@ fn lcm(expr1: i64, expr2: i64) -> i64 {
     (expr1 / gcd(expr1, expr2) * expr2).abs()
 }
 
+fn checked(value: Option<i64>) -> Result<i64, Box<dyn error::Error>> {
+    match value {
+        Some(value) => Ok(value),
+        None => Err("Integer overflow or division by zero".into()),
+    }
+}
+
 pub fn eval(expr: Node) -> Result<i64, Box<dyn error::Error>> {
     use self::Node::*;
     match expr {
@@ -58,26 +65,33 @@ pub fn eval(expr: Node) -> Result<i64, Box<dyn error::Error>> {
         Or(expr1, expr2) => Ok(eval(*expr1)? | eval(*expr2)?),
         LeftShift(expr1, expr2) => Ok(eval(*expr1)? << eval(*expr2)?),
         RightShift(expr1, expr2) => Ok(eval(*expr1)? >> eval(*expr2)?),
-        Add(expr1, expr2) => Ok(eval(*expr1)? + eval(*expr2)?),
-        Subtract(expr1, expr2) => Ok(eval(*expr1)? - eval(*expr2)?),
-        Multiply(expr1, expr2) => Ok(eval(*expr1)? * eval(*expr2)?),
-        Divide(expr1, expr2) => Ok(eval(*expr1)? / eval(*expr2)?),
-        Modulo(expr1, expr2) => Ok(eval(*expr1)? % eval(*expr2)?),
-        Negative(expr1) => Ok(-(eval(*expr1)?)),
-        Pow(expr1, expr2) => Ok(eval(*expr1)?.pow(eval(*expr2)? as u32)),
+        Add(expr1, expr2) => checked(eval(*expr1)?.checked_add(eval(*expr2)?)),
+        Subtract(expr1, expr2) => checked(eval(*expr1)?.checked_sub(eval(*expr2)?)),
+        Multiply(expr1, expr2) => checked(eval(*expr1)?.checked_mul(eval(*expr2)?)),
+        Divide(expr1, expr2) => checked(eval(*expr1)?.checked_div(eval(*expr2)?)),
+        Modulo(expr1, expr2) => checked(eval(*expr1)?.checked_rem(eval(*expr2)?)),
+        Negative(expr1) => checked(eval(*expr1)?.checked_neg()),
+        Pow(expr1, expr2) => {
+            let base = eval(*expr1)?;
+            let exponent = eval(*expr2)?;
+            if exponent < 0 || exponent > u32::MAX as i64 {
+                return Err("Exponent out of range".into());
+            }
+            checked(base.checked_pow(exponent as u32))
+        }
         Factorial(sub_expr) => {
             let sub_result = eval(*sub_expr)?;
             if sub_result >= 0 {
-                let mut factorial_result = 1;
+                let mut factorial_result: i64 = 1;
                 for i in 2..=(sub_result as usize) {
-                    factorial_result *= i as i64;
+                    factorial_result = checked(factorial_result.checked_mul(i as i64))?;
                 }
                 Ok(factorial_result)
             } else {
                 Ok(0)
             }
         }
-        Abs(sub_expr) => Ok(eval(*sub_expr)?.abs()),
+        Abs(sub_expr) => checked(eval(*sub_expr)?.checked_abs()),
         Sqrt(sub_expr) => {
             let before_sqr = eval(*sub_expr)? as f64;
             Ok(before_sqr.sqrt() as i64)
